@@ -7,8 +7,16 @@ Tie (a) H1: the real libmcount (record.c, misc.c, mcount.c, utils/shmem.c) as th
         after every step.
     (b) e2e: generated multi-threaded programs with a ground-truth log run under the snapshot's real
         `uftrace record -b 4k --num-thread N`; every <tid>.dat is decoded and compared with the thread's log.
+    (c) e2e identity: generated programs whose threads vfork (+_exit / +exec in the child), fork (the child traces
+        on), pthread_exit from nested calls and exec from a non-initial thread, each inside two open traced calls and
+        followed by enough calls to fill several 4k buffers; ground truth per thread / child / image from the program's
+        own log; monitor = C03's statement per <tid>.dat (corpus/C03/identity_scripts.json first).
+    (d) vfork probes (control / another thread returns from a library call during the vfork / second vfork from an
+        uninstrumented caller) against the identity machine Shmem.idRun (c03_messages_carry_own_tid and the two
+        pre-fix witnesses); a tree that behaves like a pre-fix variant is reported per finding (open entry of
+        known_findings.json -> KNOWN-FINDING, fixed entry -> VIOLATION, no entry yet -> PENDING-FINDING, exit 0).
 A monitor evaluates the property itself (conservation, order, no foreign records, LOST placement) on the
-implementation's output in both."""
+implementation's output in all of them."""
 import glob
 import json
 import os
@@ -228,15 +236,23 @@ def parse_msgs(data):
 DONE_BUFS = re.compile(r"(T\d+ alive=\d done=1 curr=- losts=\d+) bufs=\[[^\]]*\]")
 
 
-def norm_state(line):
+DONE_LOSTS = re.compile(r"(T\d+ alive=\d done=1 curr=- losts=)\d+")
+
+
+def norm_state(line, dead_losts=False):
     """After mtd_dtor the producer has unmapped its buffers (clear_shmem_buffer): the driver cannot show
-    them any more, the model keeps them.  Compare everything else."""
+    them any more, the model keeps them.  Compare everything else.
+    `dead_losts` (C04 schedules with a finish trigger): shmem_finish clears `losts` after handing the count to
+    uftrace_send_message, which drops it once the finish trigger has closed the pipe; the model keeps the count of a
+    loss it could not report.  The field is dead after mtd_dtor (the thread emits nothing more): not compared there."""
     line = C.norm(line)
     if " STEPS " in line:
         m = re.search(r"views=(\S*)", line)
         bad = " agree=0" in line or (" exit=" in line and " exit=0 " not in line)
         return "ok STEPS %sviews=%s" % ("BROKEN " if bad else "", m.group(1) if m else "?")
     line = DONE_BUFS.sub(r"\1 bufs=[*]", line)
+    if dead_losts:
+        line = DONE_LOSTS.sub(r"\1*", line)
     return line
 
 
@@ -384,9 +400,10 @@ def run_h1_cases(ctx, exe, cases, model_name="C03", extra_env=None):
             d["first_diff"] = (len(impl), "harness produced %d lines for %d ops (rc=%s, stderr=%s)" % (
                 len(impl), len(g.ops), r["rc"], r["stderr"][-300:]), "")
         else:
+            dl = getattr(g, "dead_losts", False)
             for j, (a, b) in enumerate(zip(impl, model)):
-                if norm_state(a) != norm_state(b):
-                    d["first_diff"] = (j, norm_state(a), norm_state(b))
+                if norm_state(a, dl) != norm_state(b, dl):
+                    d["first_diff"] = (j, norm_state(a, dl), norm_state(b, dl))
                     break
         # monitor on the implementation's final state
         if impl and " STEPS " not in impl[-1]:
@@ -449,6 +466,7 @@ static NOINST void die(void)
 	case 5: { char *a[] = { "/bin/true", 0 }; execv("/bin/true", a); _exit(9); }
 	case 6: finish_trigger_fn(); break;
 	case 7: exit(5);
+	case 8: kill(getpid(), SIGUSR1); break;     /* --signal SIGUSR1@finish */
 	}
 }
 static inline __attribute__((always_inline)) void ev(int code)
@@ -652,6 +670,658 @@ def check_exact(datadir, exe, gt, nt):
     return bad, nrecs
 
 
+# --------------------------------------------------------------------------------------------------
+# e2e: threads that change (or have changed under them) their process / thread identity
+# --------------------------------------------------------------------------------------------------
+# Every thread runs a script of steps; between two steps it makes enough traced calls to fill several 4k buffers
+# (255 records each).  Steps: V vfork + _exit in the child, VE vfork + exec in the child, F fork (the child makes
+# traced calls of its own, enough for several buffers, and _exits), PX pthread_exit from nested calls (terminal),
+# TX exec from this thread (terminal for the whole process; the other workers have ended by then; the new image makes
+# traced calls and exits).  The op happens inside two open traced calls.  Function families (8 functions each):
+# thread k = family k, the fork child of thread k = family 4 + k, the image after exec = family 8; every thread,
+# child and image takes a slot of the shared ground-truth file in the order it starts.
+ID_KINDS = {"C": 0, "V": 1, "VE": 2, "F": 3, "PX": 4, "TX": 5}
+ID_NAMES = {"V": "vfork + _exit in the child", "VE": "vfork + exec in the child", "F": "fork, the child traces on and _exits",
+            "PX": "pthread_exit from nested calls", "TX": "exec from this thread"}
+ID_POST_FAMILY = 8
+ID_MAXEV = 120000
+ID_NSLOT = 16
+ID_SRC = r"""
+#define _GNU_SOURCE
+#include <stdio.h>
+#include <stdlib.h>
+#include <stdint.h>
+#include <string.h>
+#include <pthread.h>
+#include <unistd.h>
+#include <fcntl.h>
+#include <signal.h>
+#include <sys/mman.h>
+#include <sys/syscall.h>
+#include <sys/wait.h>
+#define NI __attribute__((noinline))
+#define NOINST __attribute__((no_instrument_function))
+#define MAXEV %(maxev)d
+#define NSLOT %(nslot)d
+#define NT %(nt)d
+#define MAXSTEP 8
+struct slot { volatile uint32_t tid, n, done, role; volatile uint8_t ev[MAXEV]; };
+struct shared { volatile uint32_t nslots, ended, nchild, started, joined, pad[3]; volatile uint32_t child_pid[32], child_kind[32];
+		struct slot slots[NSLOT]; };
+struct step { int kind, arg; };
+static struct shared *sh;
+static __thread struct slot *me;
+static __thread int my_k;
+static char *self_exe, *gt_path;
+static int npost;
+static int tx_thread = %(txw)d;
+static volatile int op_lock;
+/* waiting without a library call: while one thread is inside vfork() no other thread of this program returns from a
+ * call through the PLT (libmcount keeps its vfork state in process-wide variables, see the vfork-race probe) */
+static NOINST void nap(void)
+{
+	struct timespec ts = { 0, 200000 };
+	long ret;
+	asm volatile("syscall" : "=a"(ret) : "0"(35L), "D"(&ts), "S"(0L) : "rcx", "r11", "memory");
+}
+static NOINST void wait_for(volatile uint32_t *p, uint32_t v)
+{
+	while (*p < v) nap();
+}
+/* the lock that serialises vfork()/fork() is taken and released without a library call as well: the exit hook of a
+ * pthread_mutex_unlock() runs after the mutex is free, i.e. possibly while the next thread is already inside vfork() */
+static NOINST void op_enter(void)
+{
+	while (__sync_lock_test_and_set(&op_lock, 1)) nap();
+}
+static NOINST void op_leave(void)
+{
+	__sync_lock_release(&op_lock);
+}
+static NOINST void new_slot(int role)
+{
+	uint32_t i = __sync_fetch_and_add(&sh->nslots, 1);
+	me = &sh->slots[i < NSLOT ? i : NSLOT - 1];
+	me->role = role;
+	me->tid = syscall(SYS_gettid);
+}
+static NOINST void note_child(pid_t pid, int kind)
+{
+	uint32_t i = __sync_fetch_and_add(&sh->nchild, 1);
+	if (i < 32) { sh->child_pid[i] = pid; sh->child_kind[i] = kind; }
+}
+static inline __attribute__((always_inline)) void ev(int code)
+{
+	struct slot *l = me;
+	uint32_t n = l->n;
+	if (n < MAXEV) l->ev[n] = code;
+	__sync_synchronize();
+	l->n = n + 1;
+}
+static NOINST void root(int fam, int n);
+/* vfork()/fork() are serialised: libmcount keeps the vfork state in process-wide variables */
+static NOINST void do_op(int kind, int arg)
+{
+	pid_t pid;
+	switch (kind) {
+	case 1: case 2:
+		op_enter();
+		pid = vfork();
+		if (pid == 0) {
+			if (kind == 2) execl("/bin/true", "true", (char *)0);
+			_exit(0);
+		}
+		waitpid(pid, 0, 0);
+		note_child(pid, kind);
+		op_leave();
+		break;
+	case 3:
+		op_enter();
+		pid = fork();
+		if (pid == 0) {
+			new_slot(4 + my_k);
+			root(4 + my_k, arg);
+			me->done = 1;
+			_exit(0);
+		}
+		waitpid(pid, 0, 0);
+		note_child(pid, kind);
+		op_leave();
+		break;
+	case 4:
+		me->done = 2;
+		wait_for(&sh->ended, NT);                          /* nobody is in vfork() any more */
+		pthread_exit(0);
+	case 5: {
+		char a[16];
+		wait_for(&sh->joined, 1);                          /* every other worker has ended */
+		snprintf(a, sizeof(a), "%%d", npost);
+		me->done = 3;
+		execl(self_exe, self_exe, gt_path, "post", a, (char *)0);
+		_exit(127);
+	}
+	}
+}
+%(funcs)s
+static NOINST void root(int fam, int n)
+{
+	switch (fam) { %(roots)s }
+}
+static NOINST void op(int fam, int kind, int arg)
+{
+	switch (fam) { %(ops)s }
+}
+static struct step script[NT][MAXSTEP] = { %(script)s };
+static NOINST void run_script(int k)
+{
+	__sync_fetch_and_add(&sh->started, 1);
+	wait_for(&sh->started, NT);
+	for (int i = 0; i < MAXSTEP && script[k][i].kind >= 0; i++) {
+		if (script[k][i].kind == 0) root(k, script[k][i].arg);
+		else {
+			if (script[k][i].kind >= 4) __sync_fetch_and_add(&sh->ended, 1);
+			op(k, script[k][i].kind, script[k][i].arg);
+		}
+	}
+	__sync_fetch_and_add(&sh->ended, 1);
+}
+static NOINST void *work(void *arg)
+{
+	my_k = (long)arg;
+	new_slot(my_k);
+	run_script(my_k);
+	me->done = 1;
+	return 0;
+}
+int main(int argc, char **argv)
+{
+	pthread_t t[NT];
+	int fd;
+	if (argc < 2) return 98;
+	self_exe = argv[0];
+	gt_path = argv[1];
+	fd = open(gt_path, O_RDWR | O_CREAT, 0600);
+	if (fd < 0 || ftruncate(fd, sizeof(struct shared)) < 0) return 99;
+	sh = mmap(0, sizeof(struct shared), PROT_READ | PROT_WRITE, MAP_SHARED, fd, 0);
+	if (argc > 3 && !strcmp(argv[2], "post")) {
+		new_slot(%(postfam)d);
+		root(%(postfam)d, atoi(argv[3]));
+		me->done = 1;
+		return 0;
+	}
+	npost = %(npost)d;
+	for (long i = 1; i < NT; i++) pthread_create(&t[i], 0, work, (void *)i);
+	my_k = 0;
+	new_slot(0);
+	run_script(0);
+	me->done = 1;
+	wait_for(&sh->ended, NT);
+	for (int i = 1; i < NT; i++) if (i != tx_thread) pthread_join(t[i], 0);
+	sh->joined = 1;
+	if (tx_thread > 0) pthread_join(t[tx_thread], 0);
+	return 0;
+}
+"""
+
+
+def gen_identity_program(rng, nt=None, fixed=None):
+    """-> (C source, description).  Every program has a vfork, a fork, a pthread_exit and (half of them) an exec
+    from a thread, spread over its threads; the main thread only vforks / forks.  `fixed`: a corpus entry
+    (threads, steps per thread, exec_from_thread) instead of drawn ones."""
+    nt = fixed["threads"] if fixed else (nt or rng.randint(3, 4))
+    fams = list(range(nt)) + [4 + k for k in range(nt)] + [ID_POST_FAMILY]
+    funcs = []
+    for r in fams:
+        b = 8 * r
+        body = "".join("NI void f%d(int x);\n" % (b + i) for i in range(3))
+        body += "NI void f%d(int kind, int arg);\nNI void f%d(int kind, int arg);\n" % (b + 3, b + 4)
+        body += "NI void f%d(int x) { ev(%d); ev(%d); }\n" % (b + 2, 2 * (b + 2), 2 * (b + 2) + 1)
+        body += "NI void f%d(int x) { ev(%d); f%d(x); if (x & 1) f%d(x + 1); ev(%d); }\n" % (
+            b + 1, 2 * (b + 1), b + 2, b + 2, 2 * (b + 1) + 1)
+        body += "NI void f%d(int n) { ev(%d); for (int i = 0; i < n; i++) f%d(i); ev(%d); }\n" % (
+            b, 2 * b, b + 1, 2 * b + 1)
+        body += "NI void f%d(int kind, int arg) { ev(%d); do_op(kind, arg); ev(%d); }\n" % (
+            b + 4, 2 * (b + 4), 2 * (b + 4) + 1)
+        body += "NI void f%d(int kind, int arg) { ev(%d); f%d(0); f%d(kind, arg); ev(%d); }\n" % (
+            b + 3, 2 * (b + 3), b + 2, b + 4, 2 * (b + 3) + 1)
+        funcs.append(body)
+    # which thread does what: the ops are dealt to the threads, each followed by calls that fill several buffers
+    workers = list(range(1, nt))
+    rng.shuffle(workers)
+    steps = {k: [] for k in range(nt)}
+    deal = ["V", "VE", "F"]
+    rng.shuffle(deal)
+    deal = deal + [rng.choice(["V", "VE", "F"]) for _ in range(nt - 2)]
+    for i, kind in enumerate(deal):
+        # the first op always goes to a worker thread (a thread whose tid is not the pid)
+        k = workers[i % len(workers)] if i < 2 or rng.random() < 0.7 else 0
+        if len(steps[k]) >= 5:
+            k = min(steps, key=lambda x: len(steps[x]))
+        if not steps[k] or rng.random() < 0.7:
+            steps[k].append(("C", rng.randint(5, 150)))
+        steps[k].append((kind, rng.randint(150, 400) if kind == "F" else 0))
+        steps[k].append(("C", rng.randint(130, 420)))
+    term = {}
+    pxw = workers[-1]
+    term[pxw] = "PX"
+    txw = -1
+    if rng.random() < 0.5 and len(workers) > 1:
+        txw = workers[0]
+        term[txw] = "TX"
+    for k in range(nt):
+        if not steps[k]:
+            steps[k].append(("C", rng.randint(100, 400)))
+        if k in term:
+            steps[k].append((term[k], 0))
+        steps[k] = steps[k][:7]
+    if fixed:
+        steps = {int(k): [(a, n) for a, n in v][:7] for k, v in fixed["steps"].items()}
+        txw = fixed.get("exec_from_thread", -1)
+    script = ", ".join("{ %s, { -1, 0 } }" % ", ".join("{ %d, %d }" % (ID_KINDS[a], n) for a, n in steps[k])
+                       for k in range(nt))
+    roots = " ".join("case %d: f%d(n); break;" % (r, 8 * r) for r in fams)
+    ops = " ".join("case %d: f%d(kind, arg); break;" % (r, 8 * r + 3) for r in fams)
+    src = ID_SRC % {"maxev": ID_MAXEV, "nslot": ID_NSLOT, "nt": nt, "funcs": "".join(funcs), "roots": roots, "ops": ops,
+                    "script": script, "txw": txw, "postfam": ID_POST_FAMILY, "npost": rng.randint(150, 400)}
+    desc = {"threads": nt, "steps": {str(k): ["%s%s" % (a, (":%d" % n) if n else "") for a, n in steps[k]] for k in steps},
+            "exec_from_thread": txw}
+    return src, desc
+
+
+# the vfork race probe: thread 1 vforks (the child stays for a while, then _exits) while thread 2 keeps returning from a
+# library call (getppid through the PLT; control: the same system call made inline).  Same log layout as above.
+RACE_SRC = r"""
+#define _GNU_SOURCE
+#include <stdio.h>
+#include <stdlib.h>
+#include <stdint.h>
+#include <string.h>
+#include <pthread.h>
+#include <unistd.h>
+#include <fcntl.h>
+#include <sys/mman.h>
+#include <sys/syscall.h>
+#include <sys/wait.h>
+#define NI __attribute__((noinline))
+#define NOINST __attribute__((no_instrument_function))
+#define MAXEV %(maxev)d
+#define NSLOT %(nslot)d
+struct slot { volatile uint32_t tid, n, done, role; volatile uint8_t ev[MAXEV]; };
+struct shared { volatile uint32_t nslots, ended, nchild, started, joined, pad[3]; volatile uint32_t child_pid[32], child_kind[32];
+		struct slot slots[NSLOT]; };
+static struct shared *sh;
+static __thread struct slot *me;
+static int use_plt, nvfork, nafter;
+static volatile int a_done;
+static NOINST long raw(long nr, long a, long b)
+{
+	long ret;
+	asm volatile("syscall" : "=a"(ret) : "0"(nr), "D"(a), "S"(b) : "rcx", "r11", "memory");
+	return ret;
+}
+static NOINST void nap(long ns) { struct timespec ts = { 0, ns }; raw(35, (long)&ts, 0); }
+static NOINST void new_slot(int role)
+{
+	uint32_t i = __sync_fetch_and_add(&sh->nslots, 1);
+	me = &sh->slots[i < NSLOT ? i : NSLOT - 1];
+	me->role = role;
+	me->tid = raw(186, 0, 0);
+}
+static inline __attribute__((always_inline)) void ev(int code)
+{
+	struct slot *l = me;
+	uint32_t n = l->n;
+	if (n < MAXEV) l->ev[n] = code;
+	__sync_synchronize();
+	l->n = n + 1;
+}
+volatile long sink;
+NI void f10(int x) { ev(20); ev(21); }
+NI void f9(int x) { ev(18); f10(x); ev(19); }
+NI void f8(int n) { ev(16); for (int i = 0; i < n; i++) f9(i); ev(17); }
+NI void f18(int x) { ev(36); ev(37); }
+NI void f17(int x) { ev(34); f18(x); sink += use_plt ? getppid() : raw(110, 0, 0); f18(x + 1); ev(35); }
+static NOINST void *thread_a(void *arg)
+{
+	new_slot(1);
+	__sync_fetch_and_add(&sh->started, 1);
+	while (sh->started < 3) nap(100000);   /* main is back from pthread_create(), too */
+	f8(40);
+	for (int i = 0; i < nvfork; i++) {
+		pid_t pid = vfork();
+		if (pid == 0) {
+			nap(20000000);
+			_exit(0);
+		}
+		waitpid(pid, 0, 0);
+		if (sh->nchild < 32) { sh->child_pid[sh->nchild] = pid; sh->child_kind[sh->nchild] = 1; sh->nchild++; }
+		f8(nafter);
+	}
+	me->done = 1;
+	a_done = 1;
+	return 0;
+}
+static NOINST void *thread_b(void *arg)
+{
+	new_slot(2);
+	__sync_fetch_and_add(&sh->started, 1);
+	while (sh->started < 3) nap(100000);   /* main is back from pthread_create(), too */
+	for (int i = 0; !a_done || i < 300; i++) {
+		f17(i);
+		if ((i & 7) == 7) nap(300000);
+	}
+	me->done = 1;
+	return 0;
+}
+int main(int argc, char **argv)
+{
+	pthread_t a, b;
+	int fd;
+	if (argc < 5) return 98;
+	fd = open(argv[1], O_RDWR | O_CREAT, 0600);
+	if (fd < 0 || ftruncate(fd, sizeof(struct shared)) < 0) return 99;
+	sh = mmap(0, sizeof(struct shared), PROT_READ | PROT_WRITE, MAP_SHARED, fd, 0);
+	use_plt = atoi(argv[2]);
+	nvfork = atoi(argv[3]);
+	nafter = atoi(argv[4]);
+	new_slot(0);
+	pthread_create(&a, 0, thread_a, 0);
+	pthread_create(&b, 0, thread_b, 0);
+	__sync_fetch_and_add(&sh->started, 1);      /* from here on this thread makes no library call until both are done */
+	while (!sh->slots[1].done || !sh->slots[2].done) {
+		if (sh->nslots >= 3 && sh->slots[1].done && sh->slots[2].done) break;
+		nap(1000000);
+	}
+	pthread_join(a, 0);
+	pthread_join(b, 0);
+	me->done = 1;
+	return 0;
+}
+"""
+
+
+def read_identity_log(path):
+    raw = open(path, "rb").read()
+    nslots, _, nchild, _ = struct.unpack_from("<IIII", raw, 0)   # nslots, ended, nchild, started
+    pids = struct.unpack_from("<32I", raw, 32)
+    kinds = struct.unpack_from("<32I", raw, 32 + 128)
+    base = 32 + 256
+    sz = 16 + ID_MAXEV
+    slots = []
+    for k in range(min(nslots, ID_NSLOT)):
+        tid, cnt, done, role = struct.unpack_from("<IIII", raw, base + k * sz)
+        slots.append({"tid": tid, "n": cnt, "done": done, "role": role,
+                      "ev": list(raw[base + k * sz + 16: base + k * sz + 16 + min(cnt, ID_MAXEV)])})
+    children = [(pids[i], kinds[i]) for i in range(min(nchild, 32))]
+    return slots, children
+
+
+def role_name(r):
+    return ("thread %d" % r) if r < 4 else ("fork child of thread %d" % (r - 4)) if r < 8 else "image after exec"
+
+
+def check_identity_run(datadir, exe, slots, children, libcall, rc, err):
+    """C03's statement per <tid>.dat: the file of a task is exactly the in-order concatenation of the records of the
+    threads / images that ran under that tid (ground truth: the program's own log), nothing of another thread."""
+    syms = sym_ranges(exe)
+    bad = []
+    by_tid = {}
+    for s in slots:
+        by_tid.setdefault(s["tid"], []).append(s)
+    vfork_pids = {p for p, kind in children if kind in (1, 2)}
+    dats = {int(os.path.basename(f)[:-4]) for f in glob.glob(os.path.join(datadir, "*.dat"))
+            if os.path.basename(f)[:-4].isdigit()}
+    extra = dats - set(by_tid) - {p for p, _ in children}
+    if extra:
+        bad.append("data file(s) for unknown task(s) %s" % sorted(extra))
+    nrec = 0
+    for tid in sorted(dats & vfork_pids - set(by_tid)):
+        codes, problems, n = decode_dat(os.path.join(datadir, "%d.dat" % tid), syms)
+        nrec += n
+        own = [c for c in codes if isinstance(c, int)]
+        if own:
+            bad.append("task %d (a vfork child that called no traced function): file has %d record(s) of %s" % (
+                tid, len(own), role_name((own[0] // 2) // 8)))
+    for tid, ss in by_tid.items():
+        f = os.path.join(datadir, "%d.dat" % tid)
+        what = "task %d (%s)" % (tid, " then ".join(role_name(s["role"]) for s in ss))
+        if not os.path.exists(f):
+            if any(s["ev"] for s in ss):
+                bad.append("%s: no data file, %d events executed" % (what, sum(len(s["ev"]) for s in ss)))
+            continue
+        codes, problems, n = decode_dat(f, syms)
+        nrec += n
+        bad += ["%s: %s" % (what, p) for p in problems]
+        if any(isinstance(c, tuple) and c[0] == "LOST" for c in codes):
+            bad.append("%s: LOST record although no allocation can have failed" % what)
+        own = [c for c in codes if isinstance(c, int)]
+        roles = {s["role"] for s in ss}
+        foreign = [c for c in own if (c // 2) // 8 not in roles]
+        if foreign:
+            bad.append("%s: file contains %d record(s) of another thread's functions (first f%d of %s)" % (
+                what, len(foreign), foreign[0] // 2, role_name((foreign[0] // 2) // 8)))
+            own = [c for c in own if (c // 2) // 8 in roles]
+        pos = 0
+        for s in ss:
+            j = pos
+            while j < len(own) and (own[j] // 2) // 8 == s["role"]:
+                j += 1
+            got, ev = own[pos:j], s["ev"]
+            pos = j
+            w = "task %d, %s" % (tid, role_name(s["role"]))
+            if got != ev[:len(got)]:
+                i = next((i for i, (a, b) in enumerate(zip(got, ev)) if a != b), min(len(got), len(ev)))
+                bad.append("%s: stream differs from the executed calls at record %d (file has %d records, executed %d "
+                           "events; file %s vs executed %s)" % (w, i, len(got), len(ev), got[i:i + 4], ev[i:i + 4]))
+                continue
+            if s["done"] == 3:
+                # exec from this thread: the open calls are flushed by the exec wrapper when library calls are hooked;
+                # otherwise everything up to the last completed return is in a buffer
+                need = len(ev) if libcall else max([i + 1 for i in range(len(ev) - 1) if ev[i] % 2 == 1] or [0])
+            else:
+                need = len(ev)
+            if len(got) < need:
+                bad.append("%s: %d of its %d records are in the file (%s)" % (
+                    w, len(got), need, {1: "ended normally", 2: "ended by pthread_exit", 3: "called exec",
+                                        0: "waiting in pthread_join when another thread called exec"}[s["done"]]))
+        if pos != len(own):
+            bad.append("task %d: %d record(s) of %s out of order at record %d" % (
+                tid, len(own) - pos, role_name((own[pos] // 2) // 8), pos))
+    if rc != 0:
+        bad.append("uftrace record exited with %d: %s" % (rc, err[-200:]))
+    if "LOST" in err:
+        bad.append("recorder reported LOST records: " + err[-200:])
+    return bad, nrec
+
+
+def finding_status(fid):
+    """'open' / 'fixed' / None (not recorded yet) according to known_findings.json"""
+    try:
+        kf = json.load(open(os.path.join(C.VERIF, "known_findings.json")))
+    except (OSError, ValueError):
+        return None
+    for f in kf.get("findings", []):
+        if f.get("id") == fid:
+            return f.get("status")
+    return None
+
+
+def report_finding(ctx, fid, what, obj, fix):
+    """a genuine defect of /repo recognised by its shape: open entry -> KNOWN-FINDING, fixed entry -> VIOLATION
+    (regression), no entry yet -> PENDING-FINDING (exit status 0; the repair is in proposed_fixes/)"""
+    st = finding_status(fid)
+    if st == "open":
+        C.known(ctx, {"id": fid}, "%s %s" % (fid, what))
+    elif st == "fixed":
+        C.violation(ctx, fid, dict(obj, finding=fid, what=what, note="recorded as fixed in known_findings.json: regression"))
+    else:
+        msg = "PENDING-FINDING: property=%s %s %s [not yet recorded in known_findings.json; proposed fix %s]" % (
+            ctx.prop, fid, what, fix)
+        ctx.notes.append(msg)
+        ctx.coverage.setdefault("pending_findings", []).append(dict(obj, id=fid, what=what, proposed_fix=fix))
+        print(msg)
+
+
+def keep_source(ctx, src_path, name):
+    keep = os.path.join(C.VERIF, "replays", name)
+    os.makedirs(os.path.dirname(keep), exist_ok=True)
+    try:
+        import shutil
+        shutil.copy(src_path, keep)
+        return keep
+    except OSError:
+        return None
+
+
+def run_identity_family(ctx):
+    """(c) threads that vfork / fork / pthread_exit / exec, each followed by enough calls for several 4k buffers;
+    (d) the vfork probes.  -> statistics"""
+    st = {"programs": 0, "runs": 0, "records": 0, "failures": 0, "ops": {}, "probe": {}}
+    quick = ctx.tier == "quick"
+    flavours = ["pg", "cyg", "fentry"]
+    jobs = []
+    try:
+        corpus = json.load(open(os.path.join(C.VERIF, "corpus", "C03", "identity_scripts.json")))["programs"]
+    except (OSError, ValueError, KeyError):
+        corpus = []
+    plan = [("corpus%d" % i, c) for i, c in enumerate(corpus)] + [("ident%d" % i, None) for i in range(1 if quick else 6)]
+    for i, (pname, fixed) in enumerate(plan):
+        rng = ctx.rng
+        src, desc = gen_identity_program(rng, fixed=fixed)
+        d = os.path.join(ctx.scratch, pname)
+        os.makedirs(d)
+        open(os.path.join(d, "p.c"), "w").write(src)
+        for steps in desc["steps"].values():
+            for a in steps:
+                a = a.split(":")[0]
+                if a != "C":
+                    st["ops"][a] = st["ops"].get(a, 0) + 1
+        st["programs"] += 1
+        for fl in ([flavours[(i + ctx.seed) % 3]] if quick else flavours):
+            okb, blog = build_program(os.path.join(d, "p.c"), os.path.join(d, "p_" + fl), fl)
+            if not okb:
+                C.violation(ctx, "identbuild", {"kind": "generated-program-does-not-compile", "log": blog[-2000:]}, True)
+                continue
+            # library calls hooked (vfork / exec / pthread_exit go through libmcount's PLT hook) and not
+            for rep, extra in enumerate([[]] if (fixed and quick) else [[], [], ["--no-libcall"]] if quick else
+                                        [[], [], [], ["--no-libcall"]]):
+                opts = ["-b", "4k", "--num-thread", str(rng.randint(1, 4))] + extra
+                jobs.append((d, fl, desc, opts, rng.choice([None, None, "0,1"]), rep))
+
+    def one(job):
+        d, fl, desc, opts, ts, rep = job
+        dd = os.path.join(d, "data_%s_%d" % (fl, rep))
+        gtf = os.path.join(d, "gt_%s_%d.bin" % (fl, rep))
+        exe = os.path.join(d, "p_" + fl)
+        rc, out, err = run_record(ctx, exe, dd, gtf, opts, timeout=60, taskset=ts)
+        if rc in (-9, 137):
+            shm_leftovers(dd)
+            return job, ["uftrace record did not terminate within 60 s (killed by the check)"], 0
+        if not os.path.exists(gtf):
+            return job, ["program did not start: " + err[-300:]], 0
+        slots, children = read_identity_log(gtf)
+        bad, n = check_identity_run(dd, exe, slots, children, "--no-libcall" not in opts, rc, err)
+        shm_leftovers(dd)
+        return job, bad, n
+    with ThreadPoolExecutor(3) as ex:
+        outs = list(ex.map(one, jobs))
+    for (d, fl, desc, opts, ts, rep), bad, n in outs:
+        st["runs"] += 1
+        st["records"] += n
+        if bad:
+            st["failures"] += 1
+            if st["failures"] <= 2:
+                keep = keep_source(ctx, os.path.join(d, "p.c"), "C03-identity-seed%d-%s.c" % (ctx.seed, os.path.basename(d)))
+                C.violation(ctx, "identity-%s-%s-%d" % (os.path.basename(d), fl, rep), {
+                    "kind": "property-violated-on-implementation", "what": bad[:6], "program": keep,
+                    "scripts_per_thread": desc["steps"], "legend": ID_NAMES,
+                    "build": "gcc -O1 -g -no-pie %s p.c -lpthread" % {"pg": "-pg", "cyg": "-finstrument-functions",
+                                                                      "fentry": "-pg -mfentry"}[fl],
+                    "command": "uftrace record --no-event %s ./p gt.bin" % " ".join(opts), "taskset": ts,
+                    "expected": "<tid>.dat of every thread / forked child / image after exec = exactly the calls its own "
+                                "log (gt.bin) says it executed, in order; no record of another thread's functions",
+                    "theorem": "c03_quiescent_exact, c03_no_cross_tid, c03_messages_carry_own_tid"})
+
+    # ---- (d) vfork probes ---------------------------------------------------------------------------------
+    d = os.path.join(ctx.scratch, "vfprobe")
+    os.makedirs(d)
+    open(os.path.join(d, "r.c"), "w").write(RACE_SRC % {"maxev": ID_MAXEV, "nslot": ID_NSLOT})
+    PROBES = [("control", 0, 1, None, None),
+              ("other-thread-returns-from-a-library-call-during-vfork", 1, 1, "F-C03-VFORK-MT", "proposed_fixes/C03-VFORK-MT.diff"),
+              ("second-vfork-from-an-uninstrumented-caller", 0, 2, "F-C03-VFORK-AGAIN", "proposed_fixes/C03-VFORK-AGAIN.diff")]
+    for fl in ([flavours[(ctx.seed + 1) % 3]] if quick else flavours):
+        exe = os.path.join(d, "r_" + fl)
+        okb, blog = build_program(os.path.join(d, "r.c"), exe, fl)
+        if not okb:
+            C.violation(ctx, "probebuild", {"kind": "generated-program-does-not-compile", "log": blog[-2000:]}, True)
+            continue
+        nafter = ctx.rng.randint(150, 300)
+
+        def probe(pr):
+            name, plt, nv, fid, fix = pr
+            dd = os.path.join(d, "data_%s_%s" % (fl, name[:8]))
+            gtf = os.path.join(d, "gt_%s_%s.bin" % (fl, name[:8]))
+            rc, out, err = run_record(ctx, exe, dd, gtf, ["-b", "4k"], prog_args=[plt, nv, nafter], timeout=60)
+            if not os.path.exists(gtf):
+                return ["program did not start: " + err[-300:]], 0
+            slots, children = read_identity_log(gtf)
+            bad, n = check_identity_run(dd, exe, slots, children, True, rc, err)
+            shm_leftovers(dd)
+            return bad, n
+        with ThreadPoolExecutor(3) as ex:
+            pouts = list(ex.map(probe, PROBES))
+        control_bad = pouts[0][0]
+        # the identity machine (Shmem.idRun) on the three schedules: which variant of it is this tree?
+        again, mt = (0 if pouts[2][0] else 1), (0 if pouts[1][0] else 1)
+        sched = ["TID %d %d 100 101 g v200 d0 g" % (again, mt),                       # control: one vfork of thread 101
+                 "TID %d %d 100 102 g o101 g" % (again, mt),                          # thread 102 while 101 vforks
+                 "TID %d %d 100 101 g v200 d0 g v201 d1 g" % (again, mt)]             # second vfork, stale frame
+        mo = run_model("C03", sched + [l.replace("TID %d %d" % (again, mt), "TID 1 1") for l in sched])
+        own = [" own=1" in (" " + l) for l in mo]
+        st["identity_model"] = {"variant": {"again": again, "mt": mt}, "model_says_own": own[:3], "repaired_model_says_own": own[3:],
+                                "impl_probe_ok": [not p[0] for p in pouts]}
+        if own[:3] != [not p[0] for p in pouts] or own[3:] != [True, True, True]:
+            C.violation(ctx, "identity-model-%s" % fl, {
+                "kind": "model-code-disagreement", "model_lines": sched, "model_answers": mo,
+                "impl_probe_failures": [p[0][:3] for p in pouts],
+                "theorem": "c03_messages_carry_own_tid / c03_prefix_vfork_again_witness / c03_prefix_vfork_mt_witness "
+                           "(Shmem.idStep vs libmcount/plthook.c prepare_vfork, setup_vfork, restore_vfork)"}, True)
+        for (name, plt, nv, fid, fix), (bad, n) in zip(PROBES, pouts):
+            st["runs"] += 1
+            st["records"] += n
+            pv = st["probe"].setdefault(name, {"runs": 0, "failures": 0})
+            pv["runs"] += 1
+            if not bad:
+                continue
+            pv["failures"] += 1
+            obj = {"kind": "property-violated-on-implementation", "what": bad[:6],
+                   "program": keep_source(ctx, os.path.join(d, "r.c"), "C03-vfork-probe.c"),
+                   "build": "gcc -O1 -g -no-pie <%s flags> r.c -lpthread" % fl,
+                   "command": "uftrace record --no-event -b 4k ./r gt.bin %d %d %d   (use_plt, number of vforks, calls "
+                              "after each)" % (plt, nv, nafter),
+                   "theorem": "c03_no_cross_tid, c03_quiescent_exact, c03_messages_carry_own_tid"}
+            bad = sorted(bad, key=lambda b: ("another thread" not in b, "exited with" not in b))
+            if fid is None or control_bad:
+                st["failures"] += 1
+                C.violation(ctx, "vfork-probe-%s-%s" % (name[:12], fl), obj)
+            elif name.startswith("other"):
+                report_finding(ctx, fid, "while one thread is inside vfork() every other thread of the process that returns "
+                               "from a library call runs restore_vfork() (libmcount/plthook.c: `if (vfork_parent)` is a "
+                               "process-wide flag): it takes over the vforking thread's rstack index, record depth and "
+                               "shared-memory buffers - records of one thread land in another thread's <tid>.dat, "
+                               "buffers are written concurrently, the traced program usually dies with SIGSEGV "
+                               "(%s; control without the library call passes)" % bad[0][:200], obj, fix)
+            else:
+                report_finding(ctx, fid, "the second vfork() of a thread from a caller that is not instrumented (rstack depth 0), "
+                               "the child calling only _exit/exec (their PLT entry stays resolved, no frame is pushed): the "
+                               "parent restores the saved vfork frame with MCOUNT_FL_VFORK still set and runs setup_vfork() "
+                               "itself - its tid cache becomes getpid(), it announces itself as a forked child of `uftrace "
+                               "record` and starts buffers under the main thread's name: its records land in <pid>.dat, the "
+                               "buffer it was filling is never written, no LOST report (%s; one vfork passes)" % bad[0][:200],
+                               obj, fix)
+    return st
+
+
 def h1_case_set(ctx, n):
     cases = []
     for i in range(n):
@@ -788,18 +1458,28 @@ def run(ctx):
                         "command": "uftrace record --no-event %s ./p gt.bin" % " ".join(opts), "taskset": ts,
                         "events_per_thread": evs, "theorem": "c03_quiescent_exact, c03_no_cross_tid"})
 
+    # ---- (c) e2e: threads that change their identity; (d) vfork probes ------------------------------------------
+    ident = {}
+    if okm:
+        ident = run_identity_family(ctx)
+
     ctx.coverage.update({
-        "evaluations": nsteps + e2e["records"],
+        "evaluations": nsteps + e2e["records"] + ident.get("records", 0),
         "distinct_nontrivial": len(distinct),
         "rule": "H1: %d random schedules (1-3 producer threads x 1-3 writers x buffer payload sizes "
                 "48..4080 B x record sizes 16..56 B x allocation-failure rate 0/0.1/0.3), every step compared "
                 "(full state: flags, contents, curr, losts, messages, queues, files); distinct = distinct global "
                 "states seen. e2e: generated multi-threaded programs under the real recorder, -b 4k, "
                 "--num-thread 1..4, optional CPU pinning, streams compared record by record with the "
-                "program's own ground-truth log" % len(res),
+                "program's own ground-truth log. e2e identity: generated programs whose threads vfork (+_exit / +exec in the "
+                "child), fork (the child traces on), pthread_exit from nested calls and exec from a non-initial thread, "
+                "each op inside two open traced calls and followed by enough calls for several 4k buffers, with and "
+                "without --no-libcall; every <tid>.dat (threads, fork children, image after exec) = the task's own log. "
+                "vfork probes: control / another thread returning from a library call during the vfork / a second vfork "
+                "from an uninstrumented caller" % len(res),
         "h1_schedules": len(res), "h1_steps_compared": nsteps, "model_code_disagreements": disagree,
         "monitor_failures_on_impl": monfail, "h1_features_exercised": stats,
-        "e2e": e2e, "exhaustive": False, "samples": samples,
+        "e2e": e2e, "e2e_identity": ident, "exhaustive": False, "samples": samples,
     })
     ctx.assumptions += [
         "x86-64 TSO: the producer's stores (bytes, then size) and the recorder's (size = 0, then flag = WRITTEN) "
@@ -809,6 +1489,12 @@ def run(ctx):
         "H1 plays the recorder with a stand-in (same list discipline as cmds/record.c); the real recorder is "
         "exercised by the e2e runs, where the schedule is whatever the kernel does",
         "FIFO writes of one message are atomic (PIPE_BUF) and messages of one thread arrive in order",
+        "e2e identity programs: while one thread is inside vfork() no other thread returns from a call through the PLT "
+        "(barriers and locks are taken with inline system calls): the interleaving that does is the vfork probe "
+        "(finding F-C03-VFORK-MT); two threads inside vfork() at once are not generated (libmcount keeps one process-wide "
+        "vfork state: `it's crazy to call vfork() concurrently`)",
+        "the identity machine Shmem.idRun is tied to libmcount only by the three probe schedules and the e2e programs "
+        "(no in-process harness reaches plthook.c's vfork path)",
     ]
     return C.finish(ctx)
 
